@@ -390,19 +390,25 @@ func buildScript(asserts []Term, timeoutMs int, kind string, extraSyms ...string
 }
 
 func (s *Solver) proc(kind string) (*Proc, error) {
+	// the process is returned through a local: close() (the race in raceFP killing the loser)
+	// may reset the fields at any moment
 	switch kind {
 	case "cvc5":
-		if s.cvc5 == nil {
-			p, err := startProc("cvc5")
+		p := s.cvc5
+		if p == nil {
+			var err error
+			p, err = startProc("cvc5")
 			if err != nil {
 				return nil, err
 			}
 			s.cvc5 = p
 		}
-		return s.cvc5, nil
+		return p, nil
 	case "z3inc":
-		if s.z3inc == nil {
-			p, err := startProc(gCfg.Z3)
+		p := s.z3inc
+		if p == nil {
+			var err error
+			p, err = startProc(gCfg.Z3)
 			if err != nil {
 				return nil, err
 			}
@@ -413,16 +419,18 @@ func (s *Solver) proc(kind string) (*Proc, error) {
 			}
 			s.z3inc = p
 		}
-		return s.z3inc, nil
+		return p, nil
 	default:
-		if s.z3 == nil {
-			p, err := startProc(gCfg.Z3)
+		p := s.z3
+		if p == nil {
+			var err error
+			p, err = startProc(gCfg.Z3)
 			if err != nil {
 				return nil, err
 			}
 			s.z3 = p
 		}
-		return s.z3, nil
+		return p, nil
 	}
 }
 
